@@ -9,6 +9,7 @@ DESC = {
  "dev:SetOpJoin": "INTERSECT/EXCEPT are planned as semi/anti joins on all columns: rows containing NULL never match and the ALL forms ignore multiplicity. Explained only under deviation SetOpJoin.",
  "dev:DistinctKeepsNulls": "DISTINCT / UNION (distinct) do not merge rows that contain a NULL (the dedup aggregate treats NULL keys as distinct). Explained only under deviation DistinctKeepsNulls.",
  "dev:NullKeyGroupDropped": "GROUP BY loses the group whose key is NULL on some aggregation paths. Explained only under deviation NullKeyGroupDropped.",
+ "dev:MinMaxEmptySentinel": "MIN/MAX over an empty or all-NULL input returns the accumulator sentinel (i64::MAX / i64::MIN, reported as an unrepresentable value) instead of NULL. Explained only under deviation MinMaxEmptySentinel.",
  "wrong:cell-values": "wrong cell values on the listed inputs (e.g. SUM over a derived-table column returns NULL, MAX over strings returns NULL, NULL group key merged into another group, COUNT(DISTINCT) off) — specific inputs listed in the inputs file",
  "wrong:row-count": "wrong number of rows on the listed inputs (e.g. join above an outer join, NULL-key groups) — specific inputs listed in the inputs file",
  "wrong:unrepresentable-value": "MIN/MAX over an empty or all-NULL input returns a sentinel (i64::MAX/MIN) instead of NULL on the listed inputs",
